@@ -22,7 +22,9 @@ open Drv_tmpl
           failing place, or the two skeletons differ only in the name of DOCTYPE tokens;
      D43  finding_D43 trees (a text node of the template ends inside a tag name) AND, in the placement stream,
           the offending bytes were consumed as part of a tag name;
-     D1   finding_D1 trees (a template called from >= 2 sites whose body changes the context).
+     D1   finding_D1 trees (a template called from >= 2 sites whose body changes the context);
+     D45  finding_D45 text (the name of a special element is directly followed by a byte that ends the name
+          for the engine but not for the tokenizer) AND the failing clause is a comment token in the output.
    (D41, D44 and the other shapes of D13 - engine / tokenizer misalignments on the author's static markup - were tagged here by
    an earlier oracle that also demanded a final data state; that demanded more than the property
    states and was corrected.  Their classifiers remain in spec/StructureSpec.v for props/C01_findings.v.) *)
@@ -64,8 +66,9 @@ let where_of_states (l : V.hstate list) =
   { script = List.exists is_script_state l; raw = List.exists is_raw_state l; doctype = List.exists is_doctype_state l;
     tagname = true; special = List.exists is_special_state l }
 
-let finding_tag ~(text : V.n list) ~(parsed : string) (w : where) : string =
-  if w.script && V.finding_D13 text then "\tfinding=D13"
+let finding_tag ?(clause = "") ~(text : V.n list) ~(parsed : string) (w : where) : string =
+  if has_prefix "comment_token_in_output" clause && V.finding_D45 text then "\tfinding=D45"
+  else if w.script && V.finding_D13 text then "\tfinding=D13"
   else if w.doctype && V.finding_D42 text then "\tfinding=D42"
   else begin
     let trees = try trees_of_wire parsed with _ -> [] in
@@ -87,7 +90,7 @@ let () =
       else if oa = "execerr" then ok id "placeholder_rejected_at_run_time"
       else if oa <> "ok" then ok id ("other:" ^ oa)
       else begin
-        let fail clause w = specfail id (clause ^ finding_tag ~text ~parsed w) in
+        let fail clause w = specfail id (clause ^ finding_tag ~clause ~text ~parsed w) in
         if ob = "ok" then begin
           match V.c01_pair_verdict a b with
           | Some clause ->
